@@ -48,7 +48,33 @@ Modelled, not verified: protobuf field presence, Graph/Function containers and u
   Round trips are modelled on the domain "live value names are non-empty and pairwise distinct"
   (rt_domain); outside it the model answers Raise OtherError and the harness does not call the
   implementation.
-Mutants tried: see the end of this docstring (filled in after running them).
+Observations on the three reading decisions (probed on every run, evidence key probes_outside_alphabet;
+  none is a violation of the statement, which lists none of them):
+  * Node.shard accepts device indices outside range(num_devices); the library's check then reports
+    "device index ... out of range" (kind 10).
+  * Node.shard / set_pipeline_stage accept a ModelConfiguration that is not registered on the model (never
+    registered, or removed); the check reports "not declared" (kind 3) — or "not the one registered"
+    (kind 4) when a same-named configuration was registered later; after a round trip such a reference is a
+    placeholder configuration with num_devices=0.
+  * editing the shape of a sharded value afterwards (rank 2 -> 1) leaves the recorded axis out of range;
+    the check reports kind 7.
+  Also observed: FunctionProto does not carry the shapes of function inputs, so their rank is unknown after
+  a round trip (world uses rank-unknown function inputs); outputs created by resize_outputs have name None
+  and are renamed by the name authority on clone (the generator names them with ordinary rename ops).
+Mutants of /repo tried (scratch worktree, VERIF_REPO; quick tier, seed 0) — all reported VIOLATION:
+  M1  resize_outputs no longer calls _drop_sharding_for_value      correspondence + oracle, concrete replay
+  M2  _drop_sharding_for_value rewrites only the first configuration  correspondence + oracle (needed the "burst"
+      generator: one value sharded under several configurations, then leaving)
+  M3  shard(): repeated-axis test without normalisation (-1 vs r-1)   correspondence + oracle (request accepted)
+  M4  cloner remaps device configurations before the outputs are in the value map   correspondence + oracle
+  M5  remove_device_configuration(cascade) skips functions           correspondence + oracle
+  M6  node-level IR gate `<=` instead of `<` (IR 11 dropped)           correspondence + oracle (round trip)
+  M7  shard(): axis range `-rank <= axis <= rank`                      correspondence only (no-failing-input-found):
+      not property-breaking, `shape[axis]` still rejects the request, with IndexError instead of ValueError
+  M8  replace_input_with drops only when the new value is not None     correspondence + oracle
+  M9  _resolve_node_device_configurations skips functions             correspondence + oracle (round trip)
+  M10 conflicting stage not checked when the configuration has specs  correspondence + oracle (request accepted)
+  The shrunk witnesses of M1-M6, M8-M10 are kept in corpus/C19 (run first on every run).
 """
 
 from __future__ import annotations
@@ -1086,7 +1112,7 @@ def run(ck) -> None:
     ck.prove()
     probes(ck)
 
-    n_hist = 160 if not ck.thorough else 3000
+    n_hist = 160 if not ck.thorough else 2400
     n_ops = 28 if not ck.thorough else 40
     hs: list[dict] = []
     for c in load_corpus():
